@@ -54,6 +54,19 @@ let handle line =
             | Ok2 (v, a) -> "OK\t" ^ tok_of_str v ^ "\t" ^ (match a with None -> "NONE" | Some x -> "SOME " ^ tok_of_str x)
             | Fail2 r -> res_to_string r)
        | _ -> "BADREQ")
+  | ["tr"; tbl; s] ->
+      let t = (match tbl with "enum" -> enum_table | "regex" -> regex_table | _ -> tdkey_table) in
+      tok_of_str (translate t (str_of_tok s))
+  | ["lexsq"; s] ->
+      (match lex_sq LNorm [] (str_of_tok s) with
+       | Some (v, r) -> "SOME\t" ^ tok_of_str v ^ "\t" ^ tok_of_str r | None -> "NONE")
+  | ["lexraw"; s] ->
+      (match lex_raw false [] (str_of_tok s) with
+       | Some (v, r) -> "SOME\t" ^ tok_of_str v ^ "\t" ^ tok_of_str r | None -> "NONE")
+  | ["lextq"; s] ->
+      (match lex_tq TQ0 (str_of_tok s) with Some r -> "SOME\t" ^ tok_of_str r | None -> "NONE")
+  | ["docenc"; s] -> tok_of_str (doc_enc P0 (str_of_tok s))
+  | ["rawsafe"; s] -> if raw_safe regex_table false (str_of_tok s) then "1" else "0"
   | ["c2s"; s] -> tok_of_str (camel_to_snake u0 (str_of_tok s))
   | ["s2uc"; d; s] -> tok_of_str (s2uc u0 (n_of_int (int_of_string d)) (str_of_tok s))
   | _ -> "BADREQ"
